@@ -15,6 +15,13 @@ import os
 from . import common
 from .common import AnalysisBroken, strip, walk, calls, render
 
+EXPLANATION_D4 = (
+    " D4 (state carried across the files of one invocation): every file-scope or function-static integer variable of the compiler "
+    "that is incremented somewhere, never decremented and never assigned (so it can never return to its initial value between two "
+    "files) must be listed in frozen/c08_batch_counters.json with the reason its value cannot reach an output file or a message "
+    "(debug trace numbering, statistics, run-time library); any other such counter is a violation. Does not find state carried in "
+    "tables, lists or flags.")
+
 EXPLANATION = (
     "D1: instances are all calls of _tblITER (expansion of tblITER), tblPrint, tblColumnPrint, tblRemoveIf and tblNMap outside "
     "table.c. For each, the tblNew sites that create the iterated table are located (same function for locals, same unit "
@@ -36,6 +43,9 @@ AMBIENT = {"time", "clock", "gettimeofday", "times", "rand", "srand", "random", 
            "getenv", "osGetEnv", "osDate", "osCpuTime", "osRandom", "localtime", "ctime", "gmtime", "getrusage"}
 
 
+EXPLANATION = EXPLANATION + EXPLANATION_D4
+
+
 def tname(n):
     s = strip(n)
     if s is None:
@@ -48,7 +58,7 @@ def tname(n):
 
 
 def digest(f):
-    out = {"iters": [], "news": [], "ambient": [], "sorts": [], "funcs": {}}
+    out = {"iters": [], "news": [], "ambient": [], "sorts": [], "funcs": {}, "gwrites": {}}
     for name, fn in f.funcs.items():
         if "body" not in fn:
             continue
@@ -68,6 +78,20 @@ def digest(f):
         out["funcs"][name] = {"ptrord": ptrord, "callees": sorted(callees)}
         if not own:
             continue
+        # D4 facts: writes to file-scope / function-static integer variables
+        for x in walk(fn["body"]):
+            tgt = kind = None
+            if x["k"] == "UnaryOperator" and x["op"] in ("++", "post++", "pre++"):
+                tgt, kind = strip(x["c"][0]), "inc"
+            elif x["k"] == "UnaryOperator" and x["op"] in ("--", "post--", "pre--"):
+                tgt, kind = strip(x["c"][0]), "dec"
+            elif x["k"] == "CompoundAssignOperator":
+                tgt, kind = strip(x["c"][0]), {"+=": "inc", "-=": "dec"}.get(x["op"], "set")
+            elif x["k"] == "BinaryOperator" and x["op"] == "=":
+                tgt, kind = strip(x["c"][0]), "set"
+            if tgt is not None and tgt["k"] == "DeclRefExpr" and tgt.get("g") and tgt.get("dk") == "var" \
+                    and tgt.get("tc") in ("i32", "u32", "i64", "u64", "i16", "u16", "i8", "u8"):
+                out["gwrites"].setdefault(tgt["n"], []).append((f.unit, name, kind, x["l"]))
         par = None
         for c in calls(fn["body"]):
             cal = c.get("callee")
@@ -206,6 +230,31 @@ def run(tier, only=None):
                               "%s is called from %s, which is not one of the confirmed places that may look at the clock, "
                               "the process id, random numbers or the environment: the value can reach an output" % (cal, func))
     rep.floor("ambient-source call sites", na, 25)
+    # ---- D4 ----
+    frozen_cnt = json.load(open(os.path.join(FROZEN, "c08_batch_counters.json")))
+    gw = {}
+    for u in sorted(dig):
+        for v, l in dig[u]["gwrites"].items():
+            gw.setdefault(v, []).extend(l)
+    nc = 0
+    for v in sorted(gw):
+        kinds = {k for _, _, k, _ in gw[v]}
+        if kinds != {"inc"}:
+            continue                  # reset somewhere, or a depth counter that is also decremented
+        nc += 1
+        sites = sorted({(u, f) for u, f, _, _ in gw[v]})
+        key = "batch-counter:%s:%s" % (sites[0][0], v)
+        where = "%s:%d (%s)" % (gw[v][0][0], gw[v][0][3], gw[v][0][1])
+        ent = frozen_cnt.get("%s:%s" % (sites[0][0], v))
+        if ent is not None:
+            rep.ok("D4", key, nontrivial=False)
+            rep.note("D4 frozen %s: %s" % (key, ent))
+        else:
+            rep.violation("D4", key, where,
+                          "the counter '%s' is only ever incremented (in %s) and never reset, so it keeps counting from one file of a "
+                          "batch to the next; it is not one of the counters confirmed never to reach an output or a message, so "
+                          "`aldor a.as b.as` and `aldor b.as` can write different files for b.as" % (v, ", ".join(f for _, f in sites[:3])))
+    rep.floor("monotone never-reset integer counters examined", nc, 15)
     rep.assumptions += ["calls through function pointers are not followed in D3",
                         "lisort is the only sort routine applied to output-relevant data (no qsort in the compiler units)"]
     return rep
